@@ -320,7 +320,7 @@ template <class DA, class DB> struct Bin
 
 template <class DA, class DB> struct PairImpl : IPair
 {
-    static_assert(gil::pixels_are_compatible<typename DA::pixel_t, typename DB::pixel_t>::value, "only compatible pixels are paired");
+    // only instantiated for pairs GIL declares compatible (run_pair dispatches on pixels_are_compatible)
     static_assert(std::is_same<typename DA::cs, typename DB::cs>::value, "");
     DA a; DB b;
     PairImpl(int va, int vb, unsigned char bg) : a(va, bg), b(vb, bg)
@@ -369,7 +369,17 @@ inline Bounds bounds_of(vh::Ctx& ctx)
     Bounds b; b.depth = int(ctx.B("depth", 2)); b.vals = int(ctx.B("vals", 0)); b.rots = int(ctx.B("rots", 2)); b.bgs = int(ctx.B("bgs", 2));
     return b;
 }
-template <class DA, class DB> inline void run_pair(vh::Ctx& ctx)
+// A pair of a family that GIL does NOT declare compatible is outside the statement and cannot be explored; every family in
+// c05_families.hpp is compatible on the unchanged tree, so this is reported (visibly, as a failure of the configuration)
+// instead of silently shrinking the coverage — it happens when a layout's mapping moves a colour onto a channel of another width.
+template <class DA, class DB> inline void run_pair(vh::Ctx& ctx, std::false_type)
+{
+    if (!ctx.take()) return;
+    ctx.fail(DA::tname() + "<-" + DB::tname(), "config:pixels_are_compatible-is-false",
+             "colour-wise equal channel types by the reference tables, but GIL pairs channels of different types");
+    ++ctx.witness["pairs_declared_incompatible"];
+}
+template <class DA, class DB> inline void run_pair(vh::Ctx& ctx, std::true_type)
 {
     Bounds bd = bounds_of(ctx);
     static const unsigned char BG[4] = {0x00, 0xFF, 0xA5, 0x5A};
@@ -405,7 +415,10 @@ template <class DA, class DB> inline void run_pair(vh::Ctx& ctx)
 template <class DA> struct ForB
 {
     vh::Ctx& ctx;
-    template <class DB> void operator()(mp::mp_identity<DB>) const { run_pair<DA, DB>(ctx); }
+    template <class DB> void operator()(mp::mp_identity<DB>) const
+    {
+        run_pair<DA, DB>(ctx, std::integral_constant<bool, gil::pixels_are_compatible<typename DA::pixel_t, typename DB::pixel_t>::value>());
+    }
 };
 template <class List> struct ForA
 {
